@@ -41,6 +41,10 @@ type RectBounder struct {
 	bound Rect
 }
 
+// latBudgetSlack is the relative amount (in units of dblEpsilon) by which
+// AddPoint rounds up the sine of half the latitude budget; see there.
+const latBudgetSlack = 4
+
 // NewRectBounder returns a new instance of a RectBounder.
 func NewRectBounder() *RectBounder {
 	return &RectBounder{
@@ -177,7 +181,22 @@ func (r *RectBounder) AddPoint(b Point) {
 		// be spent getting from A to B; the remainder bounds the round-trip
 		// distance (in latitude) from A or B to the min or max latitude
 		// attained along the edge AB.
-		latBudget := 2 * math.Asin(0.5*(r.a.Sub(b.Vector)).Norm()*math.Sin(maxLat))
+		//
+		// The budget is 2*asin(x) with x = sin(|AB|/2) * sin(maxLat). The computed
+		// x has a relative error of at most 2.75 * dblEpsilon (1.75 for the
+		// chord length, 0.5 for math.Sin, 0.5 for the product), and math.Asin
+		// itself evaluates sqrt(1 - x*x), whose cancellation contributes the
+		// equivalent of another 0.25 * dblEpsilon of relative error in x. Since
+		// d/dx asin(x) = 1 / sqrt(1 - x*x), these errors are amplified without
+		// bound as x approaches 1, i.e. for a long edge (nearly antipodal
+		// endpoints) that passes near a pole, which is exactly the case in which
+		// the budget is tight: it equals the true latitude change. A fixed
+		// padding cannot absorb that, so we round x up by 4 * dblEpsilon (and
+		// clamp it to 1, which also keeps math.Asin away from NaN when the
+		// endpoints are slightly longer than unit length). asin is monotone, so
+		// the result is an upper bound on the exact budget.
+		sinHalfBudget := math.Min(1, 0.5*(r.a.Sub(b.Vector)).Norm()*math.Sin(maxLat)*(1+latBudgetSlack*dblEpsilon))
+		latBudget := 2 * math.Asin(sinHalfBudget)
 		maxDelta := 0.5*(latBudget-latAB.Length()) + dblEpsilon
 
 		// Test whether AB passes through the point of maximum latitude or
